@@ -21,7 +21,7 @@ type opFunction struct {
 	opCommon
 }
 
-func (x *opFunction) Validate(rootValue cue.Value, cuePath CuePath, previousType InputOrOutput, blockedRootFields []string) (part *Function, returnedType InputOrOutput, returnsKnownValues bool, err error) {
+func (x *opFunction) Validate(rootValue cue.Value, cuePath CuePath, previousType InputOrOutput, previousWasFunction bool, blockedRootFields []string) (part *Function, returnedType InputOrOutput, returnsKnownValues bool, err error) {
 	cuePathValue, err := findValueAtPath(rootValue, cuePath)
 	if err != nil {
 		return &Function{
@@ -176,7 +176,27 @@ func (x *opFunction) Validate(rootValue cue.Value, cuePath CuePath, previousType
 	var k cue.Kind
 	k, _ = getUnderlyingKind(cuePathValue)
 
-	if fd.Returns.Type == PT_Any {
+	switch {
+	case fd.Returns.Type != PT_Any:
+		// the descriptor says it all
+	case x.FunctionType == FT_Select:
+		// what the sub-query returns is not known here
+		returnedType.Type = PT_Any
+	case x.FunctionType == FT_AsArray:
+		// an array of whatever came in; an array of arrays has no element type we can name
+		if previousType.IOType == IOOT_Single {
+			returnedType.Type = previousType.Type
+		} else {
+			returnedType.Type = PT_Any
+		}
+	case previousWasFunction:
+		// the schema value at cuePath describes the last field, not what the previous call returned
+		if previousType.IOType == IOOT_Array {
+			returnedType.Type = previousType.Type
+		} else {
+			returnedType.Type = PT_Any
+		}
+	default:
 		switch k {
 		// Primative Kinds:
 		case cue.BoolKind:
@@ -195,7 +215,7 @@ func (x *opFunction) Validate(rootValue cue.Value, cuePath CuePath, previousType
 	part.Type.CueExpr = fd.Returns.Type.CueExpr()
 	returnsKnownValues = fd.ReturnsKnownValues
 
-	if fd.ReturnsKnownValues && previousType.IOType == IOOT_Array && k == cue.StructKind {
+	if fd.ReturnsKnownValues && fd.Returns.IOType == IOOT_Single && !previousWasFunction && previousType.IOType == IOOT_Array && k == cue.StructKind {
 		cuePathValue, _ = getUnderlyingValue(cuePathValue)
 
 		// We can find available fields
